@@ -13,6 +13,7 @@ from typing import Any, Optional
 
 from . import core
 from . import docgen
+from . import findings
 from . import introspect as I
 from . import storesim
 from . import walker as W
@@ -96,6 +97,12 @@ def evaluate(text: str) -> decimal.Decimal:
     return v
 
 
+class _DocOnly:
+    """What findings predicates need from a session."""
+    def __init__(self, root: Any):
+        self.root = root
+
+
 OPS = {'+': lambda a, b: a + b, '-': lambda a, b: a - b, '*': lambda a, b: a * b, '/': lambda a, b: a / b}
 
 
@@ -145,7 +152,7 @@ class ExprSim(core.Engine):
         except Exception:
             res.skipped = 'docgen_rejected'
             return res
-        st = {'doc': doc, 'free': free}
+        st = {'doc': doc, 'free': free, 'known': res.known_hits}
         V: list[Violation] = []
         # parsed values agree with independent evaluation
         for t, e in zip(trace['free'], free):
@@ -384,7 +391,13 @@ class ExprSim(core.Engine):
                 try:
                     parser().parse(now_text, models.File)
                 except Exception as e:
-                    return [Violation('C13', 'inplace_document_reparse', step, f'{what}: document no longer parses: {str(e)[:100]}')]
+                    v = Violation('C13', 'inplace_document_reparse', step, f'{what}: document no longer parses: {str(e)[:100]}')
+                    fid = findings.match(v, _DocOnly(doc), op)
+                    if fid:
+                        stats[f'known:{fid}'] += 1
+                        st['known'].append(fid)
+                        return []
+                    return [v]
                 V.extend(W.check_tree(doc, step, standalone=True))
         return V
 
